@@ -17,6 +17,7 @@
 //	n.DrainEvents()                              // EventBlockNew/Delete/Finalize/ValidatorsChange published since last drain, in order
 //	n.Restart()                                  // close DB, reopen on the same vfs.FS, new Chain + Executer, Init (PrepareCache)
 //	n.Reattach()                                 // new Chain + Executer on the already open DB handle (used after a simulated crash)
+//	Options.Listen + n.StartNet()/ConnectTo(m)   // real loopback p2p: n.ProcessFrom(block, m.Conn.Peer.ID()) enters the real sync
 //
 // Time: the genesis timestamp is now-Options.GenesisBack, so that thousands of non-future slots exist; blocks built by
 // NextValid use consecutive slots (Build.SkipSlots to leave gaps).  All answers that the real ABI would give are scripted.
@@ -55,6 +56,27 @@ type Validator struct {
 	Addr   []byte
 	BLS    *crypto.BLSKeyPair
 	Weight uint64
+	// generator-key rotation: the keys in force before the last rotation (nil if never rotated)
+	OldPub  []byte
+	OldPriv []byte
+	rotated int
+}
+
+// FreshGeneratorKey derives a new Ed25519 generator key pair for v (its address, BLS key and weight stay).
+func (v *Validator) FreshGeneratorKey() (pub, priv []byte) {
+	pub, priv, err := crypto.GetKeys(fmt.Sprintf("verif harness validator %d rotated generator key %d", v.Index, v.rotated+1))
+	if err != nil {
+		panic(err)
+	}
+	return pub, priv
+}
+
+// UseGeneratorKey makes (pub, priv) the validator's generator key from now on (call it once the block announcing the
+// rotation has been applied); the previous pair is kept in OldPub / OldPriv.
+func (v *Validator) UseGeneratorKey(pub, priv []byte) {
+	v.OldPub, v.OldPriv = v.Pub, v.Priv
+	v.Pub, v.Priv = pub, priv
+	v.rotated++
 }
 
 func MakeValidator(i int) *Validator {
@@ -293,6 +315,7 @@ type Options struct {
 	FS            vfs.FS   // default vfs.NewMem()
 	Dir           string   // default "db"
 	GenesisTime   uint32   // if non-zero, fixed genesis timestamp (replays / crash enumeration re-runs)
+	Listen        bool     // give the Executer's p2p connection a loopback listen address (StartNet starts it); default: unstarted
 	Weights       []uint64 // BFT weight per genesis validator (default 1 each); unequal weights give finality jumps
 }
 
@@ -312,6 +335,7 @@ type Node struct {
 	DB      *db.DB
 	Chain   *blockchain.Chain
 	Exec    *consensus.Executer
+	Conn    *p2p.Connection // the Executer's connection (unstarted unless StartNet is called)
 	ABI     *ABI
 	Ctx     context.Context
 	chans   map[string]chan interface{}
@@ -416,7 +440,12 @@ func (n *Node) Reattach() error {
 		MaxBlockCache: n.Opt.MaxBlockCache, KeepEventsForHeights: n.Opt.KeepEvents})
 	n.Chain.Init(n.Genesis, n.DB)
 	var lg log.Logger = nopLogger{}
-	conn := p2p.NewConnection(lg, &p2p.Config{ChainID: n.Opt.ChainID})
+	cfg := &p2p.Config{ChainID: n.Opt.ChainID}
+	if n.Opt.Listen {
+		cfg.Addresses = []string{"/ip4/127.0.0.1/tcp/0"}
+	}
+	conn := p2p.NewConnection(lg, cfg)
+	n.Conn = conn
 	n.Exec = consensus.NewExecuter(&consensus.ExecuterConfig{CTX: n.Ctx, ABI: n.ABI, Chain: n.Chain, Conn: conn,
 		BlockTime: n.Opt.BlockTime, BatchSize: n.Opt.BatchSize})
 	n.chans = map[string]chan interface{}{}
@@ -437,6 +466,27 @@ func (n *Node) Restart() error {
 	}
 	n.DB = d
 	return n.Reattach()
+}
+
+// StartNet starts the Executer's p2p connection (Options.Listen must be set); the sync RPC handlers registered by
+// Executer.Init serve this node's real chain. ConnectTo dials another started node.
+func (n *Node) StartNet() error { return n.Conn.Start([]byte{}) }
+func (n *Node) StopNet()        { _ = n.Conn.Stop() }
+func (n *Node) ConnectTo(o *Node) error {
+	addrs, err := o.Conn.Peer.MultiAddress()
+	if err != nil || len(addrs) == 0 {
+		return fmt.Errorf("exh: peer has no address: %v", err)
+	}
+	info, err := p2p.AddrInfoFromMultiAddr(addrs[0])
+	if err != nil {
+		return err
+	}
+	return n.Conn.Peer.Connect(n.Ctx, *info)
+}
+
+// ProcessFrom runs the fork-choice entry point as if the block had been received from the given peer.
+func (n *Node) ProcessFrom(b *blockchain.Block, peer p2p.PeerID) Result {
+	return guard(func() error { return n.Exec.VerifC03Process(n.Ctx, b, peer) })
 }
 
 func guard(f func() error) (r Result) {
